@@ -474,9 +474,59 @@ def _subst_self(node, base):
     return T().visit(copy.deepcopy(node))
 
 
+def r5_marker_stripping(ctx):
+    """Clause numbers are drawn from an unbounded counter, so the pattern that strips the internal `@<n>.` markers
+    from node names must accept numbers of any length (regex AST of the literal pattern)."""
+    import re._parser as _rp
+    import warnings
+    fn = ctx.fn("src/scinumtools/dip/nodes/node_base.py", "BaseNode.clean_name")
+    pat = None
+    for a in ast.walk(fn):
+        if isinstance(a, ast.Call) and dotted_name(a.func) == "re.sub" and a.args:
+            src = a.args[0]
+            if isinstance(src, ast.Name):
+                asg = [x.value for x in ast.walk(fn) if isinstance(x, ast.Assign) and norm(x.targets[0]) == src.id]
+                src = asg[-1] if asg else src
+            try:
+                pat = Evaluator(ctx.repo, ctx.repo.module("src/scinumtools/dip/nodes/node_base.py")).ev(src)
+            except AnalysisError:
+                pat = None
+    if not isinstance(pat, str):
+        ctx.unrecognised("src/scinumtools/dip/nodes/node_base.py", "BaseNode.clean_name", "marker pattern", "pattern of the marker substitution is not a literal")
+        return
+    with warnings.catch_warnings():
+        warnings.simplefilter("ignore")
+        try:
+            tree = _rp.parse(pat)
+        except Exception as e:
+            ctx.unrecognised("src/scinumtools/dip/nodes/node_base.py", "BaseNode.clean_name", "marker pattern", f"does not parse: {e}")
+            return
+    digit_items = []
+    for op, av in tree:
+        name = str(op)
+        if name in ("MAX_REPEAT", "MIN_REPEAT"):
+            lo, hi, sub = av
+            if any(str(o) in ("IN", "CATEGORY") or (str(o) == "LITERAL" and chr(v).isdigit()) for o, v in sub):
+                digit_items.append((lo, hi))
+        elif name == "IN" and any(str(o) == "CATEGORY" and "DIGIT" in str(v) or str(o) == "RANGE" and v == (48, 57) for o, v in av):
+            digit_items.append((1, 1))
+        elif name == "CATEGORY" and "DIGIT" in str(av):
+            digit_items.append((1, 1))
+    if len(digit_items) != 1:
+        ctx.unrecognised("src/scinumtools/dip/nodes/node_base.py", "BaseNode.clean_name", "marker pattern", f"digit part of {pat!r} not identified")
+        return
+    lo, hi = digit_items[0]
+    unbounded = str(hi) in ("MAXREPEAT", "4294967295") or (isinstance(hi, int) and hi >= 1000)
+    ctx.check(lo <= 1 and unbounded, "src/scinumtools/dip/nodes/node_base.py", "BaseNode.clean_name", "clause markers of any number are stripped from node names",
+              detail={"pattern": pat, "digits": f"{lo}..{hi}"}, expected="[0-9]+ (clause numbers grow without bound: the 10th clause of a text is @10)")
+    bl = ctx.fn(BR, "BranchingList.register_case")
+    ctx.form("self.num_cases += 1" in norm(bl) and "return self.num_cases" in norm(bl), BR, "BranchingList.register_case", "clause numbers come from an increasing counter")
+
+
 RULES = [
     ("C15.R1", "in the parse loop, injection/parse and set/modify/append of non-case lines are guarded by the negative skip test; clause lines always reach the ladder", r1_skip_dominates),
     ("C15.R2", "skip test: loop over every open block; per block skip unless exactly one clause so far is true and the current one is it", r2_skip_test),
     ("C15.R3", "clause ladder table (switch / open / close-down+switch / close / raise); @else admitted only for an open block", r3_ladder),
+    ("C15.R5", "internal clause markers @<n>. are stripped from node names for every n (regex AST of the literal pattern vs the unbounded clause counter)", r5_marker_stripping),
     ("C15.R4", "closing by indentation: before the first skip test, for every hierarchy-relevant line kind, in a loop, with condition indent < clause indent or (= and not a clause line)", r4_close_before_skip),
 ]
